@@ -82,9 +82,9 @@ pub fn domains(u: &R8, t: Tier) -> (Vec<i128>, Vec<i128>) {
     } else if b == 8 {
         full
     } else if t == Tier::Thorough {
-        // boundary values plus every 61st value of the type
+        // boundary values plus every 127th value of the type
         let mut v = boundary(u.ty);
-        v.extend(full.iter().copied().filter(|x| x.rem_euclid(61) == 7));
+        v.extend(full.iter().copied().filter(|x| x.rem_euclid(127) == 7));
         v.sort();
         v.dedup();
         v
@@ -163,6 +163,7 @@ macro_rules! pairs {
                 let mut n = 0u64;
                 let mut h = 0u64;
                 let mut overflowing = 0u64;
+                let mut bad = 0u32;
                 for (ia, a) in $da.iter().enumerate() {
                     for (ib, b) in $db.iter().enumerate() {
                         let s = ((ia as u64) << 32) | ib as u64;
@@ -186,7 +187,15 @@ macro_rules! pairs {
                                 overflowing += 1;
                             }
                         }
-                        if got != want {
+                        if got != want && bad >= 200 {
+                            // vcore keeps 200 literal violations per unit and
+                            // only counts the rest: same bookkeeping, without
+                            // building the case
+                            $cx.count("violations_raw", 1);
+                            $cx.count("viol:mismatch", 1);
+                            $cx.count("violations_dropped", 1);
+                        } else if got != want {
+                            bad += 1;
                             $cx.violation(
                                 "mismatch",
                                 s,
